@@ -147,7 +147,13 @@ static void scenario() {
         for (size_t s : {M, M - 1, M - 7, M - 15, M - 63, M - 4095, M / 2 + 1, M - (1ul << 21), (size_t)1 << 63, ((size_t)1 << 63) - 1, (size_t)1 << 62}) {
             void* p = scalable_malloc(s); if (p) vf_fail("scalable_malloc(%zu) returned a block", s); n++;
             for (size_t a : {(size_t)16, (size_t)4096, (size_t)1 << 30, (size_t)1 << 62, (size_t)1 << 63}) { p = scalable_aligned_malloc(s, a); if (p) vf_fail("scalable_aligned_malloc(%zu,%zu) returned a block", s, a); void* m = (void*)1; int rc = scalable_posix_memalign(&m, a, s); if (rc == 0) vf_fail("posix_memalign(%zu,%zu) succeeded", a, s); n += 2; }
-            void* q = scalable_malloc(100); memset(q, 7, 100); void* r = scalable_realloc(q, s); if (r) vf_fail("scalable_realloc(%zu) returned a block", s); for (int i = 0; i < 100; i++) if (((char*)q)[i] != 7) vf_fail("failed realloc damaged the block"); scalable_free(q); n++; }
+            void* q = scalable_malloc(100); memset(q, 7, 100); void* r = scalable_realloc(q, s); if (r) vf_fail("scalable_realloc(%zu) returned a block", s); for (int i = 0; i < 100; i++) if (((char*)q)[i] != 7) vf_fail("failed realloc damaged the block"); scalable_free(q); n++;
+            // the same from blocks of every kind (slab object, large object, a block >= 1 MB that lives alone in its region and is grown by remapping it)
+            for (size_t from : {(size_t)3000, (size_t)100000, (size_t)2 << 20, (size_t)5 << 20}) { unsigned char* b = (unsigned char*)scalable_malloc(from); if (!b) vf_fail("scalable_malloc(%zu) failed", from); ShadowHeap::fill(b, from, 0x3c);
+                void* r2 = scalable_realloc(b, s); if (r2) vf_fail("scalable_realloc(block of %zu bytes, %zu) returned a block (msize %zu)", from, s, scalable_msize(r2));
+                if (!ShadowHeap::intact(b, from, 0x3c)) vf_fail("failed realloc damaged the block of %zu bytes", from);
+                r2 = scalable_aligned_realloc(b, s, 64); if (r2) vf_fail("scalable_aligned_realloc(block of %zu bytes, %zu, 64) returned a block", from, s);
+                if (!ShadowHeap::intact(b, from, 0x3c)) vf_fail("failed aligned_realloc damaged the block of %zu bytes", from); scalable_free(b); n++; } }
         for (auto pr : {std::pair<size_t, size_t>{M, 2}, {M / 2 + 1, 2}, {(size_t)1 << 32, (size_t)1 << 32}, {(size_t)1 << 33, (size_t)1 << 31}, {M / 3, 4}, {3, M / 2}}) { void* p = scalable_calloc(pr.first, pr.second); if (p) vf_fail("scalable_calloc(%zu,%zu) overflow not detected", pr.first, pr.second); n++; }
         for (size_t a : {(size_t)0, (size_t)3, (size_t)24, (size_t)1 << 63}) { void* p = scalable_aligned_malloc(64, a); if (p && (a == 0 || (a & (a - 1)))) vf_fail("aligned_malloc accepted alignment %zu", a); if (p) scalable_aligned_free(p); n++; }
         { void* p = scalable_aligned_malloc(0, 64); if (p) vf_fail("aligned_malloc(0) returned a block"); void* z = scalable_malloc(64); if (!z) vf_fail("allocator unusable after extreme requests"); scalable_free(z); }
